@@ -14,24 +14,19 @@ from .. import props as P
 
 def analyse_variant(texts, pids):
     """-> {pid: (status, [(rule, key, detail)])}"""
-    from ..check import run_rules
+    from ..check import gather
     from .. import report as R
     model = Model.load(overrides=texts)
     ctx = Ctx(model)
     known = R.load_known()
     out = {}
     for pid in pids:
-        spec = P.PROPS[pid]
-        rep = run_rules(ctx, spec["rules"])
-        obs = rep.for_prop(pid)
+        obs, errs, _ = gather(ctx, pid)
         viol = [(o.rule, o.key, o.detail) for o in obs
                 if o.verdict == "violation" and
                 R.match_known(o, pid, known) is None]
-        errs = [(r, t) for r, t in rep.errors if r in spec["rules"]]
-        miss = rep.missing_anchors(set(spec["rules"]))
-        status = 1 if viol else (2 if errs or miss else 0)
-        out[pid] = (status, viol, errs + [(r, "anchor %s" % a)
-                                          for r, a in miss])
+        status = 1 if viol else (2 if errs else 0)
+        out[pid] = (status, viol, errs)
     return out
 
 
